@@ -70,7 +70,7 @@ def foreign_script(rng):
 class Scenario:
     """One spend from a wallet: funding txs, unsigned tx, lookups, ground truth."""
 
-    def __init__(self, rng, wallet, n_in=1, n_spend=1, with_change=True, segwit_flag=False, fee=None):
+    def __init__(self, rng, wallet, n_in=1, n_spend=1, with_change=True, segwit_flag=False, fee=None, shared_prev=False):
         from buidl.tx import Tx, TxIn, TxOut
 
         self.wallet = wallet
@@ -79,7 +79,25 @@ class Scenario:
         self.input_sats = []
         tx_ins = []
         self.funding = []
-        for k in range(n_in):
+        if shared_prev and n_in >= 2:
+            # inputs 0 and 1 spend two different outputs (different amounts, different wallet addresses) of ONE
+            # previous transaction: anything keyed by the previous txid instead of the outpoint confuses them
+            outs, metas = [], []
+            for k in range(2):
+                idx = rng.randrange(0, 50)
+                spk, redeem, ws, ch = w.scripts(0, idx)
+                self._register(spk, redeem, ws, ch)
+                sats = rng.randrange(200_000, 5_000_000) + k * 7_000_001
+                outs.append(TxOut(sats, spk))
+                metas.append((sats, idx))
+            outs.insert(1, TxOut(rng.randrange(1000, 90000), foreign_script(rng)))
+            prev = Tx(1, [TxIn(rng.randbytes(32), rng.randrange(3))], outs, 0, network=w.network, segwit=False)
+            self.tx_lookup[prev.hash()] = prev
+            for vout, (sats, idx) in zip((0, 2), metas):
+                self.funding.append((prev, vout, sats, (0, idx)))
+                tx_ins.append(TxIn(prev.hash(), vout))
+                self.input_sats.append(sats)
+        for k in range(len(tx_ins), n_in):
             idx = rng.randrange(0, 50)
             spk, redeem, ws, ch = w.scripts(0, idx)
             self._register(spk, redeem, ws, ch)
